@@ -14,6 +14,7 @@ oracle : the statement's own definitions computed in Python without the model:
 from __future__ import annotations
 
 import itertools
+import os
 import warnings
 
 from harness import core
@@ -763,6 +764,8 @@ def run(ck: core.Check):
         source_changed = sorted(k for k in set(base) | set(inv["digests"]) if base.get(k) != inv["digests"].get(k))
         ck.cov["type_layer_inventory"] = {"classes": [c[0] for c in inv["classes"]], "functions_digested": len(inv["digests"]),
                                           "changed_since_baseline": source_changed}
+        if source_changed and os.environ.get("VERIF_NO_ESCALATE"):
+            source_changed = []  # (mutation-table runs: the verdict, not the bounds, is of interest)
         if source_changed:
             ck.notes.append(f"covered functions differ from the committed baseline: {source_changed} - sweeping with the thorough bounds")
     except Exception as e:  # noqa: BLE001
